@@ -224,7 +224,7 @@ def step_case(rng, cfgname, thumb, code, mode=None, it=None, e=None, code_base=N
         st['ttbcr'] = rng.choice((0, 0, 1, 2, 7, 0x10, 0x20)) | ((1 << 31) if cfg.get('have_lpae') and rng.random() < 0.4 else 0)
         st['ttbr0_64'] = DATA[0] | rng.getrandbits(3)
         st['ttbr1_64'] = DATA[0] + 0x80
-        st['fcseidr'] = rng.choice((0, 0, 1 << 25))
+        st['fcseidr'] = (1 << 25) if rng.random() < 0.04 else 0
         if mmu:
             st['sctlr'] |= 1 | (rng.getrandbits(1) << 28) | (rng.getrandbits(1) << 29)
         if cfg.get('have_virt_ext'):
@@ -240,3 +240,10 @@ def step_case(rng, cfgname, thumb, code, mode=None, it=None, e=None, code_base=N
 
 
 DEFAULT_MPU_REGIONS = 12
+
+
+def CONFIGS_FULL(overrides):
+    """config overrides -> dict with the defaults that valid_modes() reads"""
+    c = {'have_security_ext': True, 'have_virt_ext': False}
+    c.update(overrides or {})
+    return c
